@@ -13,7 +13,8 @@ EXTENDS Integers, Sequences, FiniteSets, TLC
 P == INSTANCE PipeProps
 
 CONSTANTS Cfgs,      \* set of configuration records (PipeProps cfg)
-          QStep      \* TRUE: environment moves only when the library cannot move
+          QStep,     \* TRUE: environment moves only when the library cannot move
+          KeepSched  \* TRUE: record the environment's moves in `sched` (schedule generation)
 VARIABLES cfg, ch, wk, cl, se, env, obs, sched
 vars == <<cfg, ch, wk, cl, se, env, obs, sched>>
 View == <<cfg, ch, wk, cl, se, env, obs>>
@@ -165,7 +166,7 @@ Lib == (LibStep \/ SERecv \/ SEExit) /\ UNCHANGED <<cfg, sched>>
 
 (* ------------------------------------------------------------------ environment commands *)
 EnvOK == ~QStep \/ ~ENABLED Lib
-Log(c) == sched' = Append(sched, c)
+Log(c) == sched' = IF KeepSched THEN Append(sched, c) ELSE sched     \* the history variable is switched off for liveness checking
 EnvSend == EnvOK /\ ~env.spend /\ ~env.closedIn /\ env.sidx <= Len(Input) /\ env' = [env EXCEPT !.spend = TRUE]
            /\ Log(Cmd("send", 0, "", 0)) /\ UNCHANGED <<cfg, ch, wk, cl, se, obs>>
 EnvClose == EnvOK /\ ~env.spend /\ ~env.closedIn /\ env' = [env EXCEPT !.closedIn = TRUE] /\ ch' = [ch EXCEPT !["in"].closed = TRUE]
@@ -182,7 +183,8 @@ EnvReleaseC == EnvOK /\ cl.pc = "incall" /\ cl' = [cl EXCEPT !.acc = Combine(@, 
 Env == EnvSend \/ EnvClose \/ (\E o \in Outs : EnvRecv(o)) \/ EnvCancel \/ (\E w \in W : EnvRelease(w)) \/ EnvReleaseC
 Next == Lib \/ Env
 Spec == Init /\ [][Next]_vars
-FairSpec == Spec /\ WF_vars(Lib)
+\* fairness: the library's goroutines are scheduled; a held user call is eventually released (the harness does that)
+FairSpec == Spec /\ WF_vars(Lib) /\ WF_vars((\E w \in W : EnvRelease(w)) \/ EnvReleaseC)
 
 (* ------------------------------------------------------------------ the observation record of PipeProps, as a state function *)
 LiveCount == Cardinality({w \in W : wk[w].pc # "done"}) + (IF cl.pc \in {"none", "done"} THEN 0 ELSE 1) + (IF se = "recv" THEN 1 ELSE 0)
@@ -208,5 +210,5 @@ Settle2Inv == P!Settle2(cfg, Obs)
 LiftClosesInv == P!LiftCloses(cfg, Obs)
 \* liveness (under fairness of the library): once cancelled with the input closed and no call held, the stage is gone for good
 Gone == LiveCount = 0
-EventuallyGone == [](env.cancelled /\ env.closedIn => <>(Gone \/ Pending > 0))
+EventuallyGone == (env.cancelled /\ env.closedIn) ~> Gone
 ====
